@@ -1140,6 +1140,10 @@ class IntFlag(Adapter):
     def decode(self, val: Any, ctx: Optional[ParseContext], pod: bool = False) -> Any:
         if pod:
             return dtypes.flags_to_pod(self.flag_cls, val)
+        if val < 0:
+            # High bit of a signed field: not representable in the flag class without losing
+            # bits (it would mask the value), just return an int like IntEnum does.
+            return val
         return self.flag_cls(val)
 
     def default_value(self) -> Any:
